@@ -45,6 +45,10 @@ type Case struct {
 	// Ghost: member 0 additionally claims ta[Parts[0]] (a partition that
 	// does not exist) and tz[0] (a topic that does not exist).
 	Ghost      bool       `json:"ghost_claims,omitempty"`
+	// GhostName is the name of the nonexistent topic (default "tz"). Its
+	// position in a member's (sorted) subscription list depends on it: "t0"
+	// sorts before every existing topic, "taz" between ta and tb, "tz" last.
+	GhostName string `json:"ghost_name,omitempty"`
 	MRack      []string   `json:"member_racks,omitempty"`    // "" = member sends no rack
 	PRack      [][]string `json:"partition_racks,omitempty"` // per real topic, per partition
 	Static     bool       `json:"static_reversed,omitempty"` // instance IDs whose order reverses the member-ID order
@@ -144,9 +148,18 @@ func (c *Case) TopicsOf(i int) []string {
 		}
 	}
 	if c.Subs[i]&GhostBit != 0 {
-		out = append(out, GhostTopic)
+		out = append(out, c.GhostTopicName())
+		sort.Strings(out) // the client sends (and NewConsumerBalancer re-sorts) the list sorted
 	}
 	return out
+}
+
+// GhostTopicName is the name of the nonexistent topic of this case.
+func (c *Case) GhostTopicName() string {
+	if c.GhostName != "" {
+		return c.GhostName
+	}
+	return GhostTopic
 }
 
 // Owned returns what member i advertises as currently assigned (topic =>
@@ -169,7 +182,7 @@ func (c *Case) Owned(i int) map[string][]int32 {
 	}
 	if c.Ghost && i == 0 {
 		add(RealTopics[0], c.Parts[0])
-		add(GhostTopic, 0)
+		add(c.GhostTopicName(), 0)
 	}
 	for _, ps := range out {
 		sort.Slice(ps, func(a, b int) bool { return ps[a] < ps[b] })
